@@ -481,5 +481,5 @@ class HttpParser:
                 self.port = 443 if self._url.port is None else self._url.port
             else:
                 self.host, self.port = self._url.hostname, self._url.port \
-                    if self._url.port else DEFAULT_HTTP_PORT
+                    if self._url.port is not None else DEFAULT_HTTP_PORT
             self.path = self._url.remainder
